@@ -54,12 +54,13 @@ type board struct {
 	started  map[int]bool
 	finished map[int]bool
 	pending  map[int]map[int]bool
+	paused   map[int]bool // the consumer reached the first terminal wait event of the group and paused
 	closed   bool
 	ch       chan struct{} // closed and replaced on every change
 }
 
 func newBoard() *board {
-	return &board{started: map[int]bool{}, finished: map[int]bool{}, pending: map[int]map[int]bool{}, ch: make(chan struct{})}
+	return &board{started: map[int]bool{}, finished: map[int]bool{}, pending: map[int]map[int]bool{}, paused: map[int]bool{}, ch: make(chan struct{})}
 }
 
 func (b *board) set(f func()) {
@@ -87,6 +88,35 @@ func (b *board) waitStarted(ctx context.Context, k int) bool {
 			return false
 		}
 	}
+}
+
+// waitPaused blocks until the consumer paused at wait-k (true) or wait-k / the run ended.
+func (b *board) waitPaused(ctx context.Context, k int) bool {
+	for {
+		b.mu.Lock()
+		p, over, ch := b.paused[k], b.finished[k] || b.closed, b.ch
+		b.mu.Unlock()
+		if p {
+			return true
+		}
+		if over {
+			return false
+		}
+		select {
+		case <-ch:
+		case <-ctx.Done():
+			return false
+		}
+	}
+}
+
+func (b *board) anyPending(k int) bool {
+	for _, p := range b.pending[k] {
+		if p {
+			return true
+		}
+	}
+	return false
 }
 
 // running: wait-k has pending objects and has not finished.
@@ -121,6 +151,8 @@ type scriptedWatcher struct {
 	autoWaits []WSched
 
 	syncConsumer func() // returns when the consumer has processed every event it received
+	late         map[int]LateSpec
+	lateSent     int
 
 	mu      sync.Mutex
 	log     []Item
@@ -177,7 +209,7 @@ func (w *scriptedWatcher) delivery(o SObs) pollevent.Event {
 	if o.Body {
 		u := &unstructured.Unstructured{Object: map[string]interface{}{
 			"apiVersion": w.univ[o.ID].APIVersion, "kind": id.GroupKind.Kind,
-			"metadata": map[string]interface{}{"name": id.Name}}}
+			"metadata": map[string]interface{}{"name": id.Name, "annotations": map[string]interface{}{"src": "v", "tgt": "v"}}}}
 		if id.Namespace != "" {
 			u.SetNamespace(id.Namespace)
 		}
@@ -259,10 +291,12 @@ func (w *scriptedWatcher) Watch(ctx context.Context, _ object.ObjMetadataSet, _ 
 				continue
 			}
 			alive := true
+			last := map[int]SObs{}
 			for _, d := range sched.Deliv {
 				if !w.board.running(k) {
 					break // the wait is completing: the remaining deliveries are dropped
 				}
+				last[d.ID] = d
 				w.mu.Lock()
 				w.log = append(w.log, Item{Seq: w.clock.Next(), Coq: "IDeliv " + d.Coq(), Text: "DELIV " + d.Text()})
 				w.mu.Unlock()
@@ -275,8 +309,41 @@ func (w *scriptedWatcher) Watch(ctx context.Context, _ object.ObjMetadataSet, _ 
 			if !alive {
 				break
 			}
+			spec, isLate := w.late[k]
+			isLate = isLate && !w.auto
+			sendLate := func() bool {
+				var ids []int
+				for _, g := range w.plan() {
+					if g.Kind == "GWait" && g.N == k {
+						ids = g.IDs
+					}
+				}
+				for j := 0; j < spec.N && len(ids) > 0; j++ {
+					id := ids[(spec.Off+j)%len(ids)]
+					d, ok := last[id]
+					if !ok {
+						d = SObs{ID: id, St: SUnknown}
+					}
+					if !send(w.delivery(d)) {
+						return false
+					}
+					w.mu.Lock()
+					w.lateSent++
+					w.mu.Unlock()
+				}
+				return true
+			}
 			if w.board.running(k) && sched.End == WCancel {
 				w.cancel()
+				if isLate {
+					sendLate() // the runner is aborting: it ignores status events
+				}
+			} else if isLate && w.board.waitPaused(ctx, k) {
+				// the consumer is slow just now; whenever the runner gets to these, they change nothing
+				if !sendLate() || !send(markerEvent()) {
+					break
+				}
+				w.syncConsumer()
 			}
 		}
 		<-ctx.Done()
@@ -304,6 +371,7 @@ type consumer struct {
 	log       []Item
 	initPlan  []planGroup
 	anomalies []string
+	late      map[int]bool // wait groups at whose first terminal event the consumer pauses
 }
 
 type planGroup struct {
@@ -424,12 +492,22 @@ func (c *consumer) handle(e event.Event) {
 			event.ReconcileSkipped: "WSkipped", event.ReconcileFailed: "WFailed", event.ReconcileTimeout: "WTimedOut"}[we.Status]
 		c.add(emit.App("EWait", c.gname(we.GroupName), emit.Nat(i), st), fmt.Sprintf("EV wait %s %d %s", we.GroupName, i, st), true)
 		if _, k, n, ok := gname(we.GroupName); ok && k == "GWait" {
+			trigger := false
 			c.board.set(func() {
 				if c.board.pending[n] == nil {
 					c.board.pending[n] = map[int]bool{}
 				}
+				had := c.board.anyPending(n)
 				c.board.pending[n][i] = we.Status == event.ReconcilePending
+				if c.late[n] && !c.board.paused[n] && had &&
+					(we.Status == event.ReconcileTimeout || !c.board.anyPending(n)) {
+					c.board.paused[n] = true
+					trigger = true
+				}
 			})
+			if trigger {
+				c.pause(latePause)
+			}
 		}
 	case event.StatusType:
 		se := e.StatusEvent
@@ -472,6 +550,23 @@ func joinSp(s []string) string {
 		out += x
 	}
 	return out
+}
+
+// latePause: how long the consumer stops reading the event channel at a late point.
+const latePause = 15 * time.Millisecond
+
+// pause: a slow consumer. It does not read events, it still answers barriers.
+func (c *consumer) pause(d time.Duration) {
+	t := time.NewTimer(d)
+	defer t.Stop()
+	for {
+		select {
+		case ack := <-c.barrierCh:
+			close(ack)
+		case <-t.C:
+			return
+		}
+	}
 }
 
 // run consumes the channel until it closes (true) or the watchdog fires (false).
